@@ -12,10 +12,19 @@ C02 driver.
   slice <sel> <n>                                        `sliceList [0,…,n-1] sel`
   pyint <tok>                                            `pyInt? tok`
   guard                                                  the generated `zeroEventsGuard`
+  gobs  <kind> <sel> <filters> <views> <filehex>         tie C on top of tie T: the reader driven by the selection arithmetic
+                                                         GENERATED from the current loaders (`Gen/ReaderSelGen.lean`:
+                                                         `genReadOscar` / `genReadJetscape`), shown like the model side of
+                                                         `obs`; without filters `imp=` is the generated selection
+                                                         `genImpactPick footers (loadedIndices genEventIndexOscar num_events)`
+  garith <kind> <sel> <rows>                             the generated `_get_num_skip_lines` / `__get_num_read_lines` on the
+                                                         count rows `label.n,label.n,…` (compared with the real private
+                                                         methods called on a loader object holding these rows)
 -/
 import SparkxVerif.Core.ReaderProto
 import SparkxVerif.Core.ReaderSel
 import SparkxVerif.Gen.ParticleList
+import SparkxVerif.Gen.ReaderSelGen
 
 namespace SparkxVerif.Drv.C02
 open SparkxVerif.Proto SparkxVerif.Rd SparkxVerif.Rd.Proto SparkxVerif.RdSel
@@ -84,7 +93,67 @@ def handleSlice : List String → String
     | _, _ => "bad-op"
   | _ => "bad-op"
 
+/-- positions in the footer list -/
+def showPicked (footers : List String) (r : Except Rd.Err (List String)) : String :=
+  match r with
+  | .ok ls => "[" ++ ",".intercalate (ls.map (fun l => match footers.findIdx? (· == l) with
+      | some i => toString i | none => "?")) ++ "]"
+  | .error e => (showErr e).replace " " "-"
+
+def handleGObs : List String → String
+  | [kind, sel, filt, views, file] =>
+    match sel? sel, filters? filt, views? views, unhex? file with
+    | some sel, some filt, some views, some text =>
+      let f := fileOfText text
+      let ef := filt.map (evFilter views)
+      if kind == "oscar" then
+        match SparkxVerif.Gen.ReaderSelGen.genReadOscar f sel ef with
+        | .error e => showErr e
+        | .ok L =>
+          let imp :=
+            match ef with
+            | some _ => showImp L
+            | none =>
+              -- `loaded_event_indices_` of a load that removes no event, from the generated start value
+              match oscarScan f.lines, oscarNumEvents f with
+              | .ok (rows, _), .ok ne =>
+                (match SparkxVerif.Gen.ReaderSelGen.genEventIndexOscar rows ne sel with
+                 | .ok e0 => showPicked L.footers
+                     (SparkxVerif.Gen.ReaderSelGen.genImpactPick L.footers (loadedIndices e0 L.numEvents.toNat))
+                 | .error e => (showErr e).replace " " "-")
+              | _, _ => "?"
+          s!"{showLoaded L} pl={showPL (particleList SparkxVerif.Gen.ParticleList.zeroEventsGuard L.numEvents L.counts L.events)} imp={imp}"
+      else if kind == "jetscape" || kind == "jetscapeP" then
+        showObs false (SparkxVerif.Gen.ReaderSelGen.genReadJetscape f sel (kind == "jetscapeP") ef)
+      else "bad-op"
+    | _, _, _, _ => "bad-op"
+  | _ => "bad-op"
+
+def rows? (s : String) : Option (List (Int × Int)) :=
+  if s == "-" then some [] else
+  (s.splitOn ",").mapM (fun t => match t.splitOn "." with
+    | [a, b] => (match a.toInt?, b.toInt? with | some x, some y => some (x, y) | _, _ => none)
+    | _ => none)
+
+def showInt : Except Rd.Err Int → String
+  | .ok n => toString n
+  | .error e => (showErr e).replace " " "-"
+
+def handleGArith : List String → String
+  | [kind, sel, rows] =>
+    match sel? sel, rows? rows with
+    | some sel, some rows =>
+      if kind == "oscar" then
+        s!"ok skip={showInt (SparkxVerif.Gen.ReaderSelGen.genSkipOscar rows sel)} nread={showInt (SparkxVerif.Gen.ReaderSelGen.genNreadOscar rows sel)}"
+      else if kind == "jetscape" then
+        s!"ok skip={showInt (SparkxVerif.Gen.ReaderSelGen.genSkipJetscape rows sel)} nread={showInt (SparkxVerif.Gen.ReaderSelGen.genNreadJetscape rows sel)}"
+      else "bad-op"
+    | _, _ => "bad-op"
+  | _ => "bad-op"
+
 def handle : List String → String
+  | "gobs" :: rest => handleGObs rest
+  | "garith" :: rest => handleGArith rest
   | "read" :: rest => handleRead rest
   | "obs" :: rest => handleObs rest
   | "slice" :: rest => handleSlice rest
